@@ -30,7 +30,7 @@ func init() {
 		Batches:     tierN(256, 4096),
 		Helpers:     []string{"holder"},
 		Chunk:       8,
-		Floors:      []string{"ok-transfer", "ok-transferX", "ok-mint", "ok-burn", "ok-lock", "ok-unlock", "refused-transfer-false", "faulted-alphabet-call", "self-transfer", "account-emptied"},
+		Floors:      []string{"ok-transfer", "ok-transferX", "ok-mint", "ok-burn", "ok-lock", "ok-unlock", "refused-transfer-false", "faulted-alphabet-call", "self-transfer", "account-emptied", "transfer-with-null-address", "whole-supply-burnt"},
 		Run:         func(b *runner.Batch) { runBalance(b, "C01") },
 	})
 	runner.Register(&runner.Check{
@@ -95,6 +95,10 @@ func (e *env) alphaOp(mode, kind string, args ...any) *op {
 
 func (e *env) canonical(mode string) {
 	u0, u1, u2 := e.users[0].ScriptHash(), e.users[1].ScriptHash(), e.users[2].ScriptHash()
+	// the whole supply sits on one account and is burnt completely: the supply goes back to zero (seeded change C01-6)
+	e.mintTo(mode, u0, 700)
+	e.alphaOp(mode, "burn", u0, int64(700))
+	e.b.Hit("whole-supply-burnt")
 	e.mintTo(mode, u0, 1000)
 	e.mintTo(mode, u1, 500)
 	e.mintTo(mode, u2, 800)
